@@ -1775,6 +1775,8 @@ where
     let mut result = allocator.nil();
     let mut seen_mod = false;
     let mut seen_name = false;
+    let mut in_body = false;
+    let mut body_docs = Vec::new();
 
     for &child in children.iter() {
         let node = ctx.arena.get(child);
@@ -1789,6 +1791,29 @@ where
                     seen_mod = true;
                     continue;
                 }
+                TokenKind::BlockBegin if seen_name && !in_body => {
+                    // `{` opens the module body: its items go on lines of their own
+                    result = result.append(emit_token_with_trivia(*token_index, ctx, allocator));
+                    in_body = true;
+                    continue;
+                }
+                TokenKind::BlockEnd if in_body => {
+                    if !body_docs.is_empty() {
+                        let body =
+                            allocator.intersperse(std::mem::take(&mut body_docs), allocator.hardline());
+                        result = result
+                            .append(
+                                allocator
+                                    .hardline()
+                                    .append(body)
+                                    .nest(get_indent_size() as isize),
+                            )
+                            .append(allocator.hardline());
+                    }
+                    result = result.append(emit_token_with_trivia(*token_index, ctx, allocator));
+                    in_body = false;
+                    continue;
+                }
                 TokenKind::Ident | TokenKind::IdentFunction | TokenKind::IdentVariable => {
                     if seen_mod && !seen_name {
                         result =
@@ -1800,6 +1825,11 @@ where
                 }
                 _ => {}
             }
+        }
+
+        if in_body {
+            body_docs.push(cst_to_doc(child, ctx, allocator));
+            continue;
         }
 
         // For internal nodes (VisibilityPub, BlockExpr)
